@@ -9,6 +9,10 @@ package reader
 // events: API events sent to the server (replicateChannelHandler.apiEventChan)
 //@ ghost var out seq[*api.ReplicateMsg]
 //@ ghost var events seq[*api.ReplicateAPIEvent]
+// the labels a pack carried at the moment it was enqueued (value snapshots: later writes to the object do not matter)
+//@ ghost var outChannel seq[string]
+//@ ghost var outTask seq[string]
+//@ ghost var outCollection seq[int64]
 //@ changhost tsInfo.targetMsgChan out
 //@ changhost replicateChannelHandler.apiEventChan events
 
@@ -44,7 +48,8 @@ package reader
 // timestamps are TSO hybrid timestamps (physical ms * 2^18 + logical), far below 2^62: shifting never wraps
 //@   assumes hpCts(r) < 4611686018427387904 && tsoBounded(pack)
 //@   splitposts
-//@   private tsInfo.* tsManager.* umaps(string;*tsInfo) replicateChannelHandler.replicateID replicateChannelHandler.targetPChannel out
+//@   private tsInfo.* tsManager.* umaps(string;*tsInfo) replicateChannelHandler.replicateID replicateChannelHandler.targetPChannel out outChannel outTask outCollection api.ReplicateMsg.*
+//@   ensures [envelopes-that-existed-before-the-call-are-untouched] preservedStruct(api.ReplicateMsg)
 //@   ensures [the-last-tick-never-decreases] hpLts(r) >= old(hpLts(r))
 //@   ensures [the-clock-never-goes-back] hpCts(r) >= old(hpCts(r))
 //@   ensures [the-last-tick-is-covered-by-the-clock] hpLts(r) <= hpCts(r)
@@ -59,7 +64,7 @@ package reader
 //@   loop 3 invariant hpLts(r) <= hpCts(r) && hpCts(r) < 4611686018427387904
 //@   loop 4 invariant hpInv(r)
 //@   loop 5 invariant hpInv(r)
-//@   modifies * except out
+//@   modifies * except out outChannel outTask outCollection
 
 //@ func FormatChanKey
 //@   props C06 C01 C03
@@ -79,16 +84,23 @@ package reader
 //@   requires m != nil && m.channelTS2 != nil && m.channelTSLocks != nil
 //@   ensures [enqueued-once] len(out) == old(len(out)) + 1 && out[old(len(out))] == msg
 //@   ensures forall i int :: 0 <= i && i < old(len(out)) ==> out[i] == old(out[i])
-//@   modifies out
+//@   ghostset return outChannel := outChannel ++ [msg.PChannelName]
+//@   ghostset return outTask := outTask ++ [msg.TaskID]
+//@   ghostset return outCollection := outCollection ++ [msg.CollectionID]
+//@   ensures [labels-recorded-at-enqueue] outChannel == old(outChannel) ++ [msg.PChannelName] && outTask == old(outTask) ++ [msg.TaskID] && outCollection == old(outCollection) ++ [msg.CollectionID]
+//@   modifies out, outChannel, outTask, outCollection
 //@   unreachable return@1
 
 // ---- C06 / C01: hand-over of one pack from a stream to the downstream output ----------------------
 //@ func (*replicateChannelHandler).innerHandleReplicateMsg
 //@   props C06 C01
-//@   requires r != nil && msg != nil && msg.MsgPack != nil
+//@   requires r != nil && msg != nil
+// packs delivered by a stream are never nil (guarantee of the stream creator / dispatcher client)
+//@   assumes msg.MsgPack != nil
 //@   ensures [at-most-one-pack] len(out) == old(len(out)) || len(out) == old(len(out)) + 1
 //@   ensures [labelled-with-its-stream] len(out) == old(len(out)) + 1 ==> out[old(len(out))].TaskID == msg.TaskID && out[old(len(out))].CollectionID == msg.CollectionID && out[old(len(out))].CollectionName == msg.CollectionName && out[old(len(out))].PChannelName == msg.PChannelName
 //@   ensures forall i int :: 0 <= i && i < old(len(out)) ==> out[i] == old(out[i])
+//@   ensures [the-enqueued-pack-names-the-streams-channel-collection-and-task] (len(out) == old(len(out)) ==> outChannel == old(outChannel) && outTask == old(outTask) && outCollection == old(outCollection)) && (len(out) == old(len(out)) + 1 ==> outChannel == old(outChannel) ++ [old(msg.PChannelName)] && outTask == old(outTask) ++ [old(msg.TaskID)] && outCollection == old(outCollection) ++ [old(msg.CollectionID)])
 //@   panics never
 
 // ---- C06: the error event names the owning task -------------------------------------------------------
@@ -309,3 +321,14 @@ package reader
 //@   loop 1 invariant subsColl >= 1 && subsPart >= 1 && watchColl >= 1 && watchPart >= 1 && listedColl >= 1
 //@   loop 2 invariant subsColl >= 1 && subsPart >= 1 && watchColl >= 1 && watchPart >= 1 && listedColl >= 1
 //@   loop 3 invariant subsColl >= 1 && subsPart >= 1 && watchColl >= 1 && watchPart >= 1 && listedColl >= 1
+
+// ---- C01: the per-stream goroutine hands packs over in the order read, labelled with its own stream ---------------
+// AddCollection$1 is the goroutine started for one source stream (one shard of one collection).  Everything it puts
+// on the downstream output while it runs carries this stream's source channel, collection id and task.
+//@ func (*replicateChannelHandler).AddCollection$1
+//@   props C01
+//@   requires r != nil && deref(sourceInfo) != nil && deref(targetInfo) != nil && len(outTask) == len(outChannel) && len(outCollection) == len(outChannel)
+//@   private model.SourceCollectionInfo.PChannel
+//@   loop 1 invariant len(outChannel) >= old(len(outChannel)) && len(outTask) == len(outChannel) && len(outCollection) == len(outChannel)
+//@   loop 1 invariant forall i int :: {outChannel[i]} old(len(outChannel)) <= i && i < len(outChannel) ==> outChannel[i] == old(deref(sourceInfo).PChannel) && outCollection[i] == old(deref(collectionID)) && outTask[i] == old(deref(taskID))
+//@   loop 1 invariant deref(sourceInfo) == old(deref(sourceInfo)) && deref(collectionID) == old(deref(collectionID)) && deref(taskID) == old(deref(taskID)) && deref(targetInfo) == old(deref(targetInfo)) && preservedFields(model.SourceCollectionInfo.PChannel)
